@@ -110,6 +110,10 @@ static int _yr_arena_make_ptr_relocatable(
   return result;
 }
 
+#ifdef YARA_VERIF
+int yr_verif_arena_always_move = 0;
+#endif
+
 // Flags for _yr_arena_allocate_memory.
 #define YR_ARENA_ZERO_MEMORY 1
 
@@ -140,6 +144,13 @@ static int _yr_arena_allocate_memory(
     return ERROR_INVALID_ARGUMENT;
 
   YR_ARENA_BUFFER* b = &arena->buffers[buffer_id];
+
+#ifdef YARA_VERIF
+  // Verification hook: pretend the buffer is full so that every allocation
+  // takes the growth path (and, with a moving realloc, relocates the buffer).
+  if (yr_verif_arena_always_move && b->data != NULL && size > 0)
+    b->size = b->used;
+#endif
 
   // If the new data doesn't fit in the remaining space the buffer must be
   // re-sized. This implies moving the buffer to a different memory location
